@@ -1545,7 +1545,12 @@ pub fn finish(sim: &mut Sim, prop: &str, trace: &Trace) {
         let last = trace.events.len().saturating_sub(1);
         // (6) replica-from-scratch: the public caches are the whole state
         for p in 0..sim.parsers.len() {
-            let mut f = make_parser(&sim.cfgs[p]);
+            // the replica gets other hash keys: what a parser holds is a function of its history,
+            // not of the iteration order of its hashed collections
+            let mut rc = sim.cfgs[p].clone();
+            rc.hash_seed = rc.hash_seed.rotate_left(17) ^ 0x5bd1_e995_9e37_79b9;
+            rc.allowed.reverse();
+            let mut f = make_parser(&rc);
             let mut ok = true;
             for b in &sim.fed[p] {
                 if let Called::Panic(_) = call(&mut f, b) {
